@@ -3,6 +3,12 @@
 // Map<GeometryInfo> cache.  Kinds: `hier` (hierarchy + query script) and `qh` (direct wrapper).
 // Path: Desc (plain structs) -> gdstk objects -> payload text -> queries.  Replay / corpus: payload
 // -> Desc -> same path.  Every payload is checked to re-parse to the identical payload.
+// Cell content: polygons (P), labels (L), FlexPaths (W) and RobustPaths (V: straight sections, 1-2 elements).  The
+// outlines both path kinds hand out through to_polygons are listed in F (FlexPath outlines first, then RobustPath
+// outlines: the order of Cell::bounding_box / Cell::convex_hull) with the path's repetition; F is what the model sees.
+// Payload: C n { c name P n {p..} L n {l..} W n {w width k pts rep} V n {v nel (width offset)*nel k pts rep} F n {p..}
+//          R n {r..} } Q n queries T tag.   rep = kind parameters : n offsets m extrema.   `V n ...` may be absent on
+// input (payloads written before RobustPaths were added) and is always written.
 #include <algorithm>
 #include <ctype.h>
 #include <float.h>
@@ -39,6 +45,11 @@ struct PathD {
     std::vector<P2> pts;
     RepD rep;
 };
+struct RPathD {  // RobustPath: one (width, offset) per element, straight sections through pts
+    std::vector<double> widths, offsets;
+    std::vector<P2> pts;
+    RepD rep;
+};
 struct RefD {
     int child;
     P2 origin;
@@ -51,6 +62,7 @@ struct CellD {
     std::vector<PolyD> polys;
     std::vector<LabelD> labels;
     std::vector<PathD> paths;
+    std::vector<RPathD> rpaths;
     std::vector<RefD> refs;
 };
 struct QueryD {
@@ -132,6 +144,7 @@ struct Tok {
         p.y = dbl();
         return p;
     }
+    bool peek_is(const char* w) const { return i < t.size() && t[i] == w; }
     bool done() const { return i == t.size(); }
 };
 
@@ -230,6 +243,24 @@ static bool parse_desc(const std::string& payload, Desc& d) {
             parse_rep(k, w.rep);
             c.paths.push_back(w);
         }
+        if (k.peek_is("V")) {  // optional on input
+            k.expect("V");
+            n = k.count();
+            for (long j = 0; j < n && !k.bad; j++) {
+                RPathD v;
+                k.expect("v");
+                long nel = k.count();
+                if (nel > 16) k.bad = true;
+                for (long q = 0; q < nel && !k.bad; q++) {
+                    v.widths.push_back(k.dbl());
+                    v.offsets.push_back(k.dbl());
+                }
+                long m = k.count();
+                for (long q = 0; q < m && !k.bad; q++) v.pts.push_back(k.pt());
+                parse_rep(k, v.rep);
+                c.rpaths.push_back(v);
+            }
+        }
         k.expect("F");  // derived: parsed and dropped
         n = k.count();
         for (long j = 0; j < n && !k.bad; j++) {
@@ -287,6 +318,27 @@ static bool valid_rep(const RepD& r) {
     return false;
 }
 
+// a path element may carry an explicit repetition with an empty list (one copy, at the origin); the counts of the
+// other kinds as above
+static bool valid_rep_rpath(const RepD& r) {
+    if (r.type == 'X' || r.type == 'Y' || r.type == 'E') return true;
+    return valid_rep(r);
+}
+
+static bool valid_rpath(const RPathD& v) {
+    if (!valid_rep_rpath(v.rep)) return false;
+    if (v.widths.empty() || v.widths.size() > 4 || v.offsets.size() != v.widths.size()) return false;
+    if (v.pts.empty()) return false;
+    for (size_t j = 0; j < v.widths.size(); j++)
+        if (!std::isfinite(v.widths[j]) || !std::isfinite(v.offsets[j]) || !(v.widths[j] > 0)) return false;
+    for (size_t j = 0; j < v.pts.size(); j++) {
+        if (!std::isfinite(v.pts[j].x) || !std::isfinite(v.pts[j].y)) return false;
+        // a section of length zero has no direction: its outline is NaN
+        if (j > 0 && v.pts[j].x == v.pts[j - 1].x && v.pts[j].y == v.pts[j - 1].y) return false;
+    }
+    return true;
+}
+
 // structural validity (inputs outside it would crash the library: empty explicit repetition on a
 // reference, zero columns, dangling indices); such payloads are answered `invalid-input`
 static bool valid_desc(const Desc& d) {
@@ -299,6 +351,8 @@ static bool valid_desc(const Desc& d) {
             if (!valid_rep(l.rep)) return false;
         for (auto& w : c.paths)
             if (!valid_rep(w.rep) || w.pts.empty()) return false;
+        for (auto& v : c.rpaths)
+            if (!valid_rpath(v)) return false;
         for (auto& r : c.refs)
             if (!valid_rep(r.rep) || r.child < 0 || (size_t)r.child >= i) return false;
     }
@@ -371,6 +425,14 @@ static void build(const Desc& d, Built& b) {
             set_rep(fp->repetition, wd.rep);
             c->flexpath_array.append(fp);
         }
+        for (auto& vd : cd.rpaths) {
+            RobustPath* rp = (RobustPath*)allocate_clear(sizeof(RobustPath));
+            std::vector<Tag> tags(vd.widths.size(), 0);
+            rp->init(Vec2{vd.pts[0].x, vd.pts[0].y}, (uint64_t)vd.widths.size(), vd.widths.data(), vd.offsets.data(), 0.01, 1000, tags.data());
+            for (size_t j = 1; j < vd.pts.size(); j++) rp->segment(Vec2{vd.pts[j].x, vd.pts[j].y}, NULL, NULL, false);
+            set_rep(rp->repetition, vd.rep);
+            c->robustpath_array.append(rp);
+        }
         for (auto& rd : cd.refs) {
             Reference* r = (Reference*)allocate_clear(sizeof(Reference));
             r->type = ReferenceType::Cell;
@@ -400,6 +462,10 @@ static void destroy(Built& b) {
             c->flexpath_array[i]->clear();
             free_allocation(c->flexpath_array[i]);
         }
+        for (uint64_t i = 0; i < c->robustpath_array.count; i++) {
+            c->robustpath_array[i]->clear();
+            free_allocation(c->robustpath_array[i]);
+        }
         for (uint64_t i = 0; i < c->reference_array.count; i++) {
             c->reference_array[i]->clear();
             free_allocation(c->reference_array[i]);
@@ -425,9 +491,11 @@ static void free_labels(Array<Label*>& a) {
     a.clear();
 }
 
-// the polygons of the cell's F list
+// the polygons of the cell's F list: FlexPath outlines, then RobustPath outlines (one polygon per element, each
+// carrying a copy of the path's repetition)
 static void path_polys(Cell* c, Array<Polygon*>& out) {
     for (uint64_t i = 0; i < c->flexpath_array.count; i++) c->flexpath_array[i]->to_polygons(false, 0, out);
+    for (uint64_t i = 0; i < c->robustpath_array.count; i++) c->robustpath_array[i]->to_polygons(false, 0, out);
 }
 
 // ------------------------------------------------------------------------------------ serialising
@@ -498,6 +566,15 @@ static std::string serialise(const Desc& d, Built& b) {
             s += " w " + hex_dbl(w.width) + " " + std::to_string(w.pts.size());
             for (auto& q : w.pts) s += " " + hex_dbl(q.x) + " " + hex_dbl(q.y);
             s += " " + rep_text(c->flexpath_array[j]->repetition);
+        }
+        s += " V " + std::to_string(cd.rpaths.size());
+        for (size_t j = 0; j < cd.rpaths.size(); j++) {
+            const RPathD& v = cd.rpaths[j];
+            s += " v " + std::to_string(v.widths.size());
+            for (size_t q = 0; q < v.widths.size(); q++) s += " " + hex_dbl(v.widths[q]) + " " + hex_dbl(v.offsets[q]);
+            s += " " + std::to_string(v.pts.size());
+            for (auto& q : v.pts) s += " " + hex_dbl(q.x) + " " + hex_dbl(q.y);
+            s += " " + rep_text(c->robustpath_array[j]->repetition);
         }
         Array<Polygon*> f = {};
         path_polys(c, f);
@@ -774,10 +851,48 @@ static void copy_hull(const Array<Vec2>& a, std::vector<P2>& v) {
     for (uint64_t i = 0; i < a.count; i++) v.push_back(P2{a[i].x, a[i].y});
 }
 
+// every coordinate of every path outline finite and of moderate size (the result text is on a 2^-20 grid in 64 bits)
+static bool outlines_usable(Built& b) {
+    bool ok = true;
+    for (Cell* c : b.cells) {
+        Array<Polygon*> f = {};
+        path_polys(c, f);
+        for (uint64_t i = 0; i < f.count; i++)
+            for (uint64_t j = 0; j < f[i]->point_array.count; j++) {
+                Vec2 v = f[i]->point_array[j];
+                if (!(fabs(v.x) <= 1e6) || !(fabs(v.y) <= 1e6)) ok = false;
+            }
+        free_polys(f);
+    }
+    return ok;
+}
+
+// an Explicit list with an offset that is a corner of the hull of all copies but not one of get_extrema's (at most
+// four, axis-extreme) offsets: only code that repeats at EVERY offset gets the hull right
+static bool explicit_diagonal_extreme(const Repetition& r) {
+    if (r.type != RepetitionType::Explicit) return false;
+    Array<Vec2> offs = {}, exts = {};
+    r.get_offsets(offs);
+    r.get_extrema(exts);
+    std::vector<P2> o;
+    for (uint64_t i = 0; i < offs.count; i++) o.push_back(P2{offs[i].x, offs[i].y});
+    bool found = false;
+    for (auto& h : my_hull(o)) {
+        bool in = false;
+        for (uint64_t i = 0; i < exts.count; i++)
+            if (exts[i].x == h.x && exts[i].y == h.y) in = true;
+        if (!in) found = true;
+    }
+    offs.clear();
+    exts.clear();
+    return found;
+}
+
 static const std::string KEY_BOX = "bbox-vs-flatten";
 static const std::string KEY_HULL = "hull-vs-flatten";
 static const std::string KEY_F9 = "Reference::convex_hull:explicit-rep";
 static const std::string KEY_F10 = "convex_hull:collinear-descending";
+static const std::string KEY_CRASH = "c09-crash";
 
 static void run_hier(Out& out, const std::string& payload_in, bool generated) {
     Desc d;
@@ -795,6 +910,14 @@ static void run_hier(Out& out, const std::string& payload_in, bool generated) {
         if (!query_in_range(q, b)) in_range = false;
     if (!in_range) {
         if (generated) die("generated query out of range: " + payload_in);
+        destroy(b);
+        std::string id = out.add("hier", payload_in);
+        out.I(id, "invalid-input");
+        out.count("invalid-input");
+        return;
+    }
+    if (!outlines_usable(b)) {  // a path whose outline is not finite (e.g. a RobustPath folding back onto itself)
+        if (generated) die("generated path has an unusable outline: " + payload_in);
         destroy(b);
         std::string id = out.add("hier", payload_in);
         out.I(id, "invalid-input");
@@ -823,6 +946,7 @@ static void run_hier(Out& out, const std::string& payload_in, bool generated) {
         for (auto& p : c.polys) out.count(std::string("rep:") + p.rep.type + ":elem");
         for (auto& l : c.labels) out.count(std::string("rep:") + l.rep.type + ":elem");
         for (auto& w : c.paths) out.count(std::string("rep:") + w.rep.type + ":elem");
+        for (auto& v : c.rpaths) out.count(std::string("rep:") + v.rep.type + ":elem");
         for (size_t j = 0; j < c.refs.size(); j++) {
             out.count(std::string("rep:") + c.refs[j].rep.type + ":ref");
             int64_t m = 0;
@@ -831,7 +955,52 @@ static void run_hier(Out& out, const std::string& payload_in, bool generated) {
         }
     }
 
-    // ---- the script
+    {  // RobustPaths of the case: how many, which repetition kinds, where
+        std::set<std::string> kinds;
+        std::vector<bool> rp_below(nc, false);
+        bool any = false, oblique = false, transformed = false, uneven = false;
+        for (size_t i = 0; i < nc; i++) {
+            const CellD& c = d.cells[i];
+            for (size_t j = 0; j < c.rpaths.size(); j++) {
+                const RPathD& v = c.rpaths[j];
+                const Repetition& r = b.cells[i]->robustpath_array[j]->repetition;
+                std::string kd(1, v.rep.type);
+                if (v.rep.type == 'E') {
+                    if (v.rep.offs.empty()) kd = "E-empty";
+                    else if (explicit_diagonal_extreme(r)) kd = "E-diagonal-extreme";
+                    else if (v.rep.offs.size() == 1) kd = "E-single";
+                } else if (v.rep.type == 'X' || v.rep.type == 'Y') {
+                    if (v.rep.coords.empty()) kd += "-empty";
+                    else if (v.rep.coords.size() == 1) kd += "-single";
+                }
+                kinds.insert(kd);
+                out.count("rpath:rep:" + kd);
+                out.count("rpath:paths");
+                out.count("rpath:elements" + std::to_string(v.widths.size()));
+                out.count("rpath:sections" + std::to_string(v.pts.size() - 1));
+                any = true;
+            }
+            if (!c.rpaths.empty()) rp_below[i] = true;
+            if (!c.rpaths.empty() && c.rpaths.size() != c.paths.size()) uneven = true;
+            for (auto& r : c.refs)
+                if (rp_below[r.child]) {
+                    rp_below[i] = true;
+                    int64_t m = 0;
+                    if (!is_multiple_of_pi_over_2(r.rot, m)) oblique = true;
+                    if (r.xrefl || r.mag != 1) transformed = true;
+                }
+        }
+        if (any) {
+            out.count("rpath:cases");
+            for (auto& kd : kinds) out.count("rpath:cases-with-rep:" + kd);
+            if (oblique) out.count("rpath:cases-under-oblique-reference");
+            if (transformed) out.count("rpath:cases-under-reflected-or-magnified-reference");
+            if (uneven) out.count("rpath:cases-robustpath-count-differs-from-flexpath-count");
+        }
+    }
+
+    // ---- the script: a crash or a hang inside the library is recorded with this input (kind hier-crash)
+    guard_begin(out, "hier", payload, KEY_CRASH, 600);
     Map<GeometryInfo> cache = {};
     std::vector<QRes> res(d.queries.size());
     // doubled[c]: since the last `z`, a direct `h c` ran while the cached hull of c was already valid, so the
@@ -1022,6 +1191,7 @@ static void run_hier(Out& out, const std::string& payload_in, bool generated) {
             if (fail_unexplained.empty()) fail_unexplained = text;
         }
     }
+    guard_end();
     out.P(id, !fail_unexplained.empty() ? fail_unexplained : (!fail_known.empty() ? fail_known : std::string("ok")));
     destroy(b);
 }
@@ -1078,7 +1248,7 @@ static void run_qh(Out& out, const std::string& payload_in, bool generated) {
 }
 
 static void run_case(Out& out, const std::string& kind, const std::string& payload, bool generated) {
-    if (kind == "hier") run_hier(out, payload, generated);
+    if (kind == "hier" || kind == "hier-crash") run_hier(out, payload, generated);
     else if (kind == "qh") run_qh(out, payload, generated);
     else {
         std::string id = out.add(kind, payload);
@@ -1148,6 +1318,109 @@ static RepD gen_rep(Rng& g, bool allow_explicit) {
     return r;
 }
 
+// ---- RobustPaths: straight sections through integer points, consecutive sections never parallel (a section that
+// continues or folds back its predecessor makes the side intersections degenerate), widths 1 / 2 and offsets that are
+// multiples of 1/2: as for FlexPaths the corner vertices are not float-exact (unit normals), but nowhere near a tie of
+// the 2^-20 grid or of a hull decision.  The outline is built once to make sure it is finite and stays near the path.
+static bool rpath_outline_ok(const RPathD& v, double bound) {
+    Desc d;
+    CellD c;
+    c.nameidx = 0;
+    c.rpaths.push_back(v);
+    c.rpaths[0].rep = RepD();
+    d.cells.push_back(c);
+    d.tag = "probe";
+    Built b;
+    build(d, b);
+    Array<Polygon*> f = {};
+    path_polys(b.cells[0], f);
+    bool ok = f.count == v.widths.size();
+    for (uint64_t i = 0; i < f.count; i++) {
+        if (f[i]->point_array.count < 3) ok = false;
+        for (uint64_t j = 0; j < f[i]->point_array.count; j++)
+            if (!(fabs(f[i]->point_array[j].x) <= bound) || !(fabs(f[i]->point_array[j].y) <= bound)) ok = false;
+    }
+    free_polys(f);
+    destroy(b);
+    return ok;
+}
+
+// repetition of a RobustPath: every kind, Explicit lists whose diagonal offset is extreme only diagonally, empty and
+// single-entry lists
+static RepD gen_rep_rpath(Rng& g) {
+    RepD r;
+    int k = (int)g.below(100);
+    if (k < 12) return r;
+    if (k < 34) {  // (a,0), (0,a), (b,b) with a/2 < b < a, mirrored into any quadrant, any order, maybe an inner offset
+        r.type = 'E';
+        double a = (double)g.range(6, 12);
+        double bb = (double)g.range((int64_t)(a / 2) + 1, (int64_t)a - 1);
+        double sx = g.coin() ? 1 : -1, sy = g.coin() ? 1 : -1;
+        r.offs.push_back(P2{sx * a, 0});
+        r.offs.push_back(P2{0, sy * a});
+        r.offs.push_back(P2{sx * bb, sy * bb});
+        if (g.chance(30)) r.offs.push_back(P2{sx * (double)g.range(1, 3), sy * (double)g.range(1, 3)});
+        for (size_t i = r.offs.size(); i > 1; i--) std::swap(r.offs[i - 1], r.offs[g.below(i)]);
+        return r;
+    }
+    if (k < 40) {
+        r.type = 'E';
+        r.offs.push_back(ipt(g, -8, 8));
+        return r;
+    }
+    if (k < 44) {
+        r.type = 'E';
+        return r;
+    }
+    if (k < 48) {
+        r.type = g.coin() ? 'X' : 'Y';
+        return r;
+    }
+    if (k < 52) {
+        r.type = g.coin() ? 'X' : 'Y';
+        r.coords.push_back((double)g.range(-8, 8));
+        return r;
+    }
+    for (;;) {
+        r = gen_rep(g, true);
+        if (r.type != 'n') return r;
+    }
+}
+
+static RPathD gen_rpath(Rng& g, int lo, int hi, Out& out) {
+    for (int attempt = 0;; attempt++) {
+        RPathD v;
+        if (g.coin()) {
+            static const double offs1[4] = {0, 0, 0.5, -1};
+            v.widths.push_back(g.coin() ? 1.0 : 2.0);
+            v.offsets.push_back(offs1[g.below(4)]);
+        } else {
+            static const double seps[3] = {1.5, 2, 2.5};
+            double sp = seps[g.below(3)];
+            v.widths.push_back(g.coin() ? 1.0 : 2.0);
+            v.widths.push_back(g.coin() ? 1.0 : 2.0);
+            v.offsets.push_back(-sp);
+            v.offsets.push_back(sp);
+        }
+        int n = (int)g.range(2, 4);
+        v.pts.push_back(ipt(g, lo, hi));
+        while ((int)v.pts.size() < n) {
+            P2 q = ipt(g, lo, hi);
+            const P2& e = v.pts.back();
+            if (q.x == e.x && q.y == e.y) continue;
+            if (v.pts.size() >= 2 && cross3(v.pts[v.pts.size() - 2], e, q) == 0) continue;
+            v.pts.push_back(q);
+        }
+        if (attempt >= 200) die("no usable RobustPath after 200 attempts");
+        if (!rpath_outline_ok(v, 4.0 * (hi - lo) + 8)) {
+            out.count("gen:rpath-regenerated");
+            continue;
+        }
+        v.rep = gen_rep_rpath(g);
+        return v;
+    }
+}
+
 static uint64_t point_estimate(const Desc& d) {
     std::vector<uint64_t> n(d.cells.size(), 0);
     uint64_t worst = 0;
@@ -1157,6 +1430,7 @@ static uint64_t point_estimate(const Desc& d) {
         for (auto& p : c.polys) s += p.pts.size() * rep_count(p.rep);
         for (auto& l : c.labels) s += rep_count(l.rep);
         for (auto& w : c.paths) s += 16 * rep_count(w.rep);
+        for (auto& v : c.rpaths) s += 4 * (v.pts.size() + 1) * v.widths.size() * rep_count(v.rep);
         for (auto& r : c.refs) s += rep_count(r.rep) * n[r.child];
         n[i] = s;
         worst = std::max(worst, s);
@@ -1315,6 +1589,10 @@ static void gen_general(Out& out, Rng& g) {
                 for (int v = 0; v < n; v++) w.pts.push_back(ipt(g, -32, 32));
                 w.rep = gen_rep(g, true);
                 c.paths.push_back(w);
+            }
+            if (g.chance(35)) {
+                int nv = g.chance(25) ? 2 : 1;
+                for (int j = 0; j < nv; j++) c.rpaths.push_back(gen_rpath(g, -32, 32, out));
             }
             int dep = 1;
             if (i > 0) {
@@ -1502,6 +1780,101 @@ static void gen_degenerate(Out& out, Rng& g) {
     emit_scenario(out, g, d, cell_ok, ref_ok);
 }
 
+// RobustPaths as (nearly) the only content of a leaf, so that their outline and every copy of it is what the boxes and
+// hulls above are made of: leaf (1-2 RobustPaths, sometimes a FlexPath / label / small polygon beside them), a middle
+// cell with 1-2 rotated / reflected / magnified references (sometimes repeated) and sometimes a RobustPath of its own,
+// and most of the time a top cell with one more rotated reference (nested hull route)
+static double gen_oblique(Rng& g) {
+    switch ((int)g.below(8)) {
+        case 0: return M_PI / 4;
+        case 1: return 3 * M_PI / 4;
+        case 2: return -M_PI / 4;
+        case 3: return atan2(3.0, 4.0);
+        case 4: return atan2(4.0, 3.0);
+        case 5: return atan2(5.0, 12.0);
+        default: return 0.3;
+    }
+}
+
+static void gen_rpath_scenario(Out& out, Rng& g) {
+    Desc d;
+    d.tag = "rp";
+    static const double mags[5] = {1, 1, 2, 0.5, -1};
+    {
+        CellD c;
+        c.nameidx = 0;
+        int nv = g.chance(35) ? 2 : 1;
+        for (int j = 0; j < nv; j++) c.rpaths.push_back(gen_rpath(g, -6, 6, out));
+        if (g.chance(25)) {  // never more FlexPaths than RobustPaths here
+            PathD w;
+            w.width = g.coin() ? 1.0 : 2.0;
+            int n = (int)g.range(2, 3);
+            for (int v = 0; v < n; v++) w.pts.push_back(ipt(g, -6, 6));
+            w.rep = gen_rep(g, true);
+            c.paths.push_back(w);
+        }
+        if (g.chance(25)) {
+            LabelD l;
+            l.pos = ipt(g, -6, 6);
+            c.labels.push_back(l);
+        }
+        if (g.chance(25)) {
+            PolyD p;
+            for (;;) {
+                p.pts.clear();
+                for (int v = 0; v < 3; v++) p.pts.push_back(ipt(g, -4, 4));
+                if (cross3(p.pts[0], p.pts[1], p.pts[2]) != 0) break;
+            }
+            c.polys.push_back(p);
+        }
+        d.cells.push_back(c);
+    }
+    {
+        CellD c;
+        c.nameidx = 1;
+        int nr = (int)g.range(1, 2);
+        for (int j = 0; j < nr; j++) {
+            RefD r;
+            r.child = 0;
+            r.origin = g.chance(30) ? P2{0, 0} : ipt(g, -40, 40);
+            r.mag = mags[g.below(5)];
+            r.xrefl = g.coin();
+            r.rot = g.chance(70) ? gen_oblique(g) : gen_rotation(g);
+            if (g.chance(40)) r.rep = gen_rep(g, g.chance(25));
+            c.refs.push_back(r);
+        }
+        if (g.chance(30)) c.rpaths.push_back(gen_rpath(g, -12, 12, out));
+        d.cells.push_back(c);
+    }
+    if (g.chance(70)) {
+        CellD c;
+        c.nameidx = 2;
+        RefD r;
+        r.child = g.chance(80) ? 1 : 0;
+        r.origin = ipt(g, -40, 40);
+        r.mag = mags[g.below(5)];
+        r.xrefl = g.coin();
+        r.rot = g.chance(70) ? gen_oblique(g) : gen_rotation(g);
+        if (g.chance(25)) r.rep = gen_rep(g, false);
+        c.refs.push_back(r);
+        if (g.chance(30)) {
+            RefD r2;
+            r2.child = 0;
+            r2.origin = ipt(g, -40, 40);
+            r2.mag = 1;
+            r2.xrefl = false;
+            r2.rot = gen_rotation(g);
+            c.refs.push_back(r2);
+        }
+        d.cells.push_back(c);
+    }
+    size_t nc = d.cells.size();
+    std::vector<bool> cell_ok(nc, true);
+    std::vector<std::vector<bool>> ref_ok(nc);
+    for (size_t i = 0; i < nc; i++) ref_ok[i].assign(d.cells[i].refs.size(), true);
+    emit_scenario(out, g, d, cell_ok, ref_ok);
+}
+
 static PolyD rect_poly(double x0, double y0, double x1, double y1) {
     PolyD p;
     p.pts.push_back(P2{x0, y0});
@@ -1560,6 +1933,51 @@ static void deterministic(Out& out) {
         d.queries = script_of("z fb 2 z b 2 z h 1 z b 1");
         run_desc(out, d);
         d.queries = script_of("z b 1 h 1 b 1");
+        run_desc(out, d);
+    }
+    {  // RobustPath (two elements) under an Explicit repetition whose offset (8,8) is extreme only diagonally: its own
+       // hull, and the boxes / hulls of references rotated by 45 degrees and by atan(3/4) with reflection and magnification
+        Desc d;
+        d.tag = "rp";
+        CellD c0, c1, c2;
+        c0.nameidx = 0;
+        RPathD v;
+        v.widths.push_back(1);
+        v.widths.push_back(1);
+        v.offsets.push_back(-1);
+        v.offsets.push_back(1);
+        v.pts.push_back(P2{0, 0});
+        v.pts.push_back(P2{3, 0});
+        v.pts.push_back(P2{3, 2});
+        v.rep.type = 'E';
+        v.rep.offs.push_back(P2{10, 0});
+        v.rep.offs.push_back(P2{0, 10});
+        v.rep.offs.push_back(P2{8, 8});
+        c0.rpaths.push_back(v);
+        c1.nameidx = 1;
+        RefD r;
+        r.child = 0;
+        r.origin = P2{0, 0};
+        r.rot = M_PI / 4;
+        r.mag = 1;
+        r.xrefl = false;
+        c1.refs.push_back(r);
+        c2.nameidx = 2;
+        RefD r2;
+        r2.child = 0;
+        r2.origin = P2{5, -3};
+        r2.rot = atan2(3.0, 4.0);
+        r2.mag = 2;
+        r2.xrefl = true;
+        c2.refs.push_back(r2);
+        d.cells.push_back(c0);
+        d.cells.push_back(c1);
+        d.cells.push_back(c2);
+        d.queries = script_of("z fh 0 z h 0 z fb 0 z b 0 z fb 1 z b 1 z fB 1 0 z H 1 0 z fH 2 0 z b 2 P 0 0 P 0 1");
+        run_desc(out, d);
+        d.queries = script_of("z h 0 b 0 b 1 h 1 B 2 0 H 2 0 b 2");
+        run_desc(out, d);
+        d.queries = script_of("z b 2 b 1 b 0 h 2 h 1");
         run_desc(out, d);
     }
     for (int variant = 0; variant < 2; variant++) {  // F10: collinear descending points
@@ -1646,6 +2064,7 @@ int main(int argc, char** argv) {
     for (long i = 0; i < scenarios; i++) {
         if (g.chance(70)) gen_general(out, g);
         else gen_degenerate(out, g);
+        if (i % 4 == 3) gen_rpath_scenario(out, g);
     }
     for (long i = 0; i < nqh; i++) gen_qh(out, g);
     out.close();
